@@ -140,7 +140,7 @@ fn gen_breaker(rng: &mut Rng, res: &str, j: u64) -> BreakerSpec {
         min_req: rng.range(0, 4),
         interval_ms,
         buckets,
-        max_rt: *rng.pick(&[0u64, 10, 100]),
+        max_rt: *rng.pick(&[0u64, 10, 100, 10, 100, 59_999, 60_000, 120_000]),
         threshold,
     }
 }
